@@ -52,6 +52,14 @@ def main():
         for patch in sorted(glob.glob(os.path.join(INC, pid, "m*.diff"))):
             m = os.path.basename(patch)[:-5]
             key = "%s/%s" % (pid, m)
+            if key in os.environ.get("CONFIRM_SKIP", "").split():
+                continue
+            for f in glob.glob(os.path.join(VERIF, ".build", "confirm_results*.json")):      # other instances' progress
+                if os.path.abspath(f) != os.path.abspath(OUT):
+                    try:
+                        done_elsewhere.update(json.load(open(f)))
+                    except ValueError:
+                        pass
             prev = results.get(key) or done_elsewhere.get(key)
             if prev and prev.get("tests") and prev.get("patch_sha") in (None, _sha(patch)):
                 continue        # confirmed before (against an earlier /repo HEAD is fine as long as the patch file is the same)
